@@ -64,3 +64,70 @@ Proof.
   setoid_replace (vol c * pmult (vol_pfx cf) / pmult pr + y * pmult (vol_pfx cf) / pmult pr) with ((vol c + y) * pmult (vol_pfx cf) / pmult pr) by (field; exact N).
   exact E.
 Qed.
+
+Lemma pair_wells_volume cf q pairs : forall ss ds ss' ds',
+  Forall (Inv cf) ss -> Forall (Inv cf) ds -> pair_wells cf q pairs ss ds = Ok (ss', ds') ->
+  wsum vol ss' + wsum vol ds' == wsum vol ss + wsum vol ds.
+Proof.
+  induction pairs as [|[i j] t IH]; intros ss ds ss' ds' Is Id H.
+  - simpl in H. inversion H; subst. reflexivity.
+  - simpl in H. destruct (nth_error ss i) as [s|] eqn:Es; [|discriminate].
+    destruct (nth_error ds j) as [d|] eqn:Ed; [|discriminate]. unfold bind in H.
+    destruct (transfer cf s d q) as [[s1 d1]|] eqn:Et; [|discriminate]. simpl in H.
+    pose proof (Forall_nth_error _ _ _ _ Is Es) as Hs. pose proof (Forall_nth_error _ _ _ _ Id Ed) as Hd.
+    destruct (transfer_inv cf s d q s1 d1 Hs Hd Et) as [Hs1 Hd1].
+    apply IH in H; [|apply Forall_set_nth; assumption|apply Forall_set_nth; assumption].
+    rewrite H. rewrite (wsum_set_nth vol i s s1 ss Es), (wsum_set_nth vol j d d1 ds Ed).
+    pose proof (transfer_volume cf s d q s1 d1 Hs Hd Et). lra.
+Qed.
+
+(* two plates: the wells' cached volumes of both plates together are unchanged by a transfer between regions
+   (one to many, many to one, element-wise) *)
+Theorem p_to_p_volume cf ps rs pd rd q ps' pd' :
+  PInv cf ps -> PInv cf pd -> p_to_p cf ps rs pd rd q = Ok (ps', pd') ->
+  wsum vol (wells ps') + wsum vol (wells pd') == wsum vol (wells ps) + wsum vol (wells pd).
+Proof.
+  unfold p_to_p, PInv. intros Is Id H.
+  destruct (region_idx (ncols ps) rs) as [|s0 st] eqn:Esi; [discriminate|].
+  destruct (region_idx (ncols pd) rd) as [|d0 dt] eqn:Edi; [discriminate|].
+  unfold bind in H. destruct (dispatch rs rd _ _) as [pg|] eqn:Edis; [|discriminate].
+  destruct pg.
+  - destruct (nth_error (wells ps) s0) as [src|] eqn:Esrc; [|discriminate].
+    destruct (fold_wells _ (d0 :: dt) src (wells pd)) as [[src' ws]|] eqn:E; [|discriminate]. inversion H; subst; simpl; clear H.
+    set (f := fun s w : container => transfer cf s w q) in *.
+    pose proof (Forall_nth_error _ _ _ _ Is Esrc) as Isrc.
+    rewrite (wsum_set_nth vol s0 src src' _ Esrc).
+    assert (C : vol src' + wsum vol ws == vol src + wsum vol (wells pd)).
+    { apply (fold_wells_conserve f (Inv cf) (Inv cf) vol vol) with (idxs := d0 :: dt); auto.
+      intros a w a' w' Ha Hw Hf. destruct (transfer_inv cf a w q a' w' Ha Hw Hf) as [Ia Iw]. split; [exact Ia|]. split; [exact Iw|].
+      apply (transfer_volume cf a w q a' w' Ha Hw Hf). }
+    lra.
+  - destruct (nth_error (wells pd) d0) as [dst|] eqn:Edst; [|discriminate].
+    destruct (fold_wells _ (s0 :: st) dst (wells ps)) as [[dst' ws]|] eqn:E; [|discriminate]. inversion H; subst; simpl; clear H.
+    set (f := fun d w : container => match transfer cf w d q with Ok sd => Ok (snd sd, fst sd) | Err e => Err e end) in *.
+    assert (Hf' : forall a w a' w', f a w = Ok (a', w') -> transfer cf w a q = Ok (w', a')).
+    { intros a w a' w' Hf. unfold f in Hf. destruct (transfer cf w a q) as [[x y]|]; [|discriminate]. simpl in Hf. inversion Hf; reflexivity. }
+    pose proof (Forall_nth_error _ _ _ _ Id Edst) as Idst.
+    rewrite (wsum_set_nth vol d0 dst dst' _ Edst).
+    assert (C : vol dst' + wsum vol ws == vol dst + wsum vol (wells ps)).
+    { apply (fold_wells_conserve f (Inv cf) (Inv cf) vol vol) with (idxs := s0 :: st); auto.
+      intros a w a' w' Ha Hw Hf. apply Hf' in Hf. destruct (transfer_inv cf w a q w' a' Hw Ha Hf) as [Iw Ia]. split; [exact Ia|]. split; [exact Iw|].
+      pose proof (transfer_volume cf w a q w' a' Hw Ha Hf). lra. }
+    lra.
+  - destruct (pair_wells cf q _ (wells ps) (wells pd)) as [[ss' ds']|] eqn:E; [|discriminate]. inversion H; subst; simpl; clear H.
+    apply (pair_wells_volume cf q _ _ _ _ _ Is Id E).
+Qed.
+Theorem p_to_p_reported_volume cf ps rs pd rd q ps' pd' pr :
+  PInv cf ps -> PInv cf pd -> p_to_p cf ps rs pd rd q = Ok (ps', pd') ->
+  plate_get_volume cf ps' pr + plate_get_volume cf pd' pr == plate_get_volume cf ps pr + plate_get_volume cf pd pr.
+Proof.
+  intros Is Id H. pose proof (p_to_p_volume cf ps rs pd rd q ps' pd' Is Id H) as V.
+  rewrite !plate_get_volume_scale.
+  assert (E : (wsum vol (wells ps') + wsum vol (wells pd')) * pmult (vol_pfx cf) / pmult pr == (wsum vol (wells ps) + wsum vol (wells pd)) * pmult (vol_pfx cf) / pmult pr)
+    by (rewrite V; reflexivity).
+  revert E. generalize (wsum vol (wells ps')) (wsum vol (wells pd')) (wsum vol (wells ps)) (wsum vol (wells pd)). intros a b c d E.
+  assert (N : ~ pmult pr == 0) by apply pmult_nz.
+  setoid_replace (a * pmult (vol_pfx cf) / pmult pr + b * pmult (vol_pfx cf) / pmult pr) with ((a + b) * pmult (vol_pfx cf) / pmult pr) by (field; exact N).
+  setoid_replace (c * pmult (vol_pfx cf) / pmult pr + d * pmult (vol_pfx cf) / pmult pr) with ((c + d) * pmult (vol_pfx cf) / pmult pr) by (field; exact N).
+  exact E.
+Qed.
